@@ -12,13 +12,15 @@ Nothing is assumed about the comparator for the per-function balance statements 
 `balanced_any_cmp`; the history statements assume a total-order comparator (so that the table is a
 search tree and the size field can be tracked through the ideal map).
 
-**Model boundary.**  Balance is proved for the algebraic tree.  That the pointer code — rotations with
-their re-parenting lines, `transplant`, and `rebalance_after_delete` reading `x->parent` of the shared
-sentinel (the "sentinel parent trick") — performs CLRS's cases at these nodes is not a theorem here
-(`Properties/C03PTree.lean` proves it for the rotations, `transplant` and the six insert fix-up cases and the whole
-insert fix-up loop on the pointer-level model `Model/PTree.lean`; the delete fix-up is not proved there): it
-rests on the correspondence harness, which compares the complete pre-order dump (keys, values, colours,
-shape) of the C heap with this model after every operation and walks parent pointers, colours and black
+**Model boundary.**  Balance and the comparison counts in this file are proved for the algebraic tree.  For the
+pointer code — rotations with their re-parenting lines, `transplant`, `rebalance_after_delete` reading `x->parent` of
+the shared sentinel — `Properties/C03PTree.lean` proves on the pointer-level model `Model/PTree.lean`: the insert
+fix-up loop and the delete fix-up loop restore `RB` (`rebalance_after_insert_rb`, `rebalance_after_delete_rb`), every
+reachable state represents a red-black search tree (`reachable_states_good`, `phistory_refines_ordmap`), and the
+pointer-level descent makes at most `2·⌊log₂(n+1)⌋ (+2 for add)` comparator calls (`descent_comparisons`, with
+`descent_count_is_model_count`: it is the count of this file's model).  The correspondence harness additionally
+compares the complete pre-order dump (keys, values, colours, shape, node and parent ids) of the C heap with the model
+after every operation, counts the comparator calls of the C code and walks parent pointers, colours and black
 heights on the C heap itself. -/
 namespace CC.Properties.C17
 open CC CC.Spec CC.Spec.OrdMap
